@@ -134,7 +134,7 @@ def exc_site(exc: BaseException) -> tuple[str, str]:
 
 
 class Outcome:
-    __slots__ = ('steps', 'excs', 'raised', 'busy', 'rec', 'budget', 'replies')
+    __slots__ = ('steps', 'excs', 'raised', 'busy', 'rec', 'budget', 'replies', 'pre_diag')
 
     def __init__(self):
         self.steps = 0
@@ -144,6 +144,7 @@ class Outcome:
         self.rec = None
         self.budget = False
         self.replies = []  # [(cid, bytes)] captured at the attacker during this step
+        self.pre_diag = None
 
     def bad(self):
         if self.busy:
@@ -159,6 +160,28 @@ class Outcome:
 # base bed
 # ---------------------------------------------------------------------------
 VICTIM_NAME = 'C17-victim'
+_MUTED = False
+
+
+def _mute_colors():
+    """bumble builds its debug f-strings eagerly; a third of a frame's cost is ANSI colouring of text that
+    is never emitted (logging is disabled by ./check).  `color()` is a pure string wrapper, so every
+    module-level reference to it is replaced by the identity.  Nothing else of the log path is touched:
+    an exception raised while *formatting* a hostile packet for a log line stays observable."""
+    global _MUTED
+    if _MUTED:
+        return
+    _MUTED = True
+    import bumble.colors as bc
+
+    real = bc.color
+
+    def plain(s, *a, **k):
+        return s
+
+    for name, mod in list(sys.modules.items()):
+        if name.startswith('bumble') and mod is not None and getattr(mod, 'color', None) is real:
+            mod.color = plain
 
 
 class Bed:
@@ -168,6 +191,7 @@ class Bed:
 
     def __init__(self, seed: int = 0):
         GUARD.install()
+        _mute_colors()
         self.world = World(
             2, seed=seed, classic=self.classic, le=not self.classic, device_kwargs={1: {'name': VICTIM_NAME}, 0: {'name': 'C17-attacker'}}
         )
@@ -337,6 +361,25 @@ class Bed:
     def is_valid_disconnect(self, chan: str, data) -> bool:
         return False
 
+    def diagnose(self, out, pout) -> str | None:
+        """Descriptive only (used to group failures by root cause in the signature, never for a verdict):
+        a short name of a known-bad state of the victim read from its public attributes."""
+        return None
+
+    def resync(self, chan: str, data) -> bool:
+        """Hook run after a frame and before the reference request (see LeCocBed).  False = do not probe."""
+        return True
+
+    def merges_with_next(self, chan: str, data) -> bool:
+        """True when the channel is a byte stream and `data` ends inside a line, so that the bytes of the
+        next request legitimately continue that line."""
+        return False
+
+    def classify(self, chan: str, data) -> str | None:
+        """Coarse structural class of a frame by an independent decoder (signature grouping of failures
+        during which nothing was raised)."""
+        return None
+
     # -- probe ------------------------------------------------------------------
     def probe(self) -> str | None:
         """Send the protocol's reference request; None if answered correctly, else a short reason."""
@@ -388,10 +431,12 @@ class AttServerBed(Bed):
     name = 'att_server'
 
     def probe(self):
-        # Read Request of handle 1: the GAP primary-service declaration (read-only, value = UUID 0x1800);
-        # the Device Name value (handle 3) is writable in bumble's GAP service, so it is not a fixed reference
-        self.send('att', b'\x0a\x01\x00')
-        return expect_in(self.psettle(), 4, b'\x0b\x00\x18')
+        # Find Information Request 0x0001-0x0001 -> format 1, handle 1, type 0x2800 (GAP primary service).
+        # Not a Read Request: on this tree a Write Request to ANY attribute is accepted ('TODO: check
+        # permissions' in on_att_write_request, C11's subject), so no attribute *value* is a fixed reference;
+        # attribute types cannot be changed over the air.
+        self.send('att', b'\x04\x01\x00\x01\x00')
+        return expect_in(self.psettle(), 4, b'\x05\x01\x01\x00\x00\x28')
 
 
 class AttClientBed(Bed):
@@ -508,6 +553,89 @@ class ClSigBed(LeSigBed):
         return False  # the probe does not need the dynamic channel
 
 
+class LeCocBed(Bed):
+    """Victim = LE credit-based channel server whose application echoes every SDU; attacker = raw
+    K-frames on the dynamic CID.  Reference request = one SDU that must come back."""
+
+    name = 'le_coc'
+    PSM = 0x0080
+
+    def bring_up(self):
+        from bumble import l2cap
+
+        self.v_chan = None
+
+        def on_channel(ch):
+            self.v_chan = ch
+            ch.sink = lambda data: ch.write(bytes(data))
+
+        self.vic.create_l2cap_server(l2cap.LeCreditBasedChannelSpec(psm=self.PSM), on_channel)
+
+        async def go():
+            return await self.a_conn.create_l2cap_channel(l2cap.LeCreditBasedChannelSpec(psm=self.PSM))
+
+        ch = self.world.run(go())
+        self.world.settle()
+        assert self.v_chan is not None
+        self.dyn_cid = ch.destination_cid  # victim's endpoint
+        self.dyn_rx_cid = ch.source_cid  # attacker's endpoint
+        self.v_mtu = self.v_chan.mtu
+        self.v_mps = self.v_chan.mps
+
+    def grant(self, n: int):
+        # LE Flow Control Credit: CID = the sender's (attacker's) endpoint of the channel
+        self.send('lesig', bytes([0x16, (self.next_tid() % 250) + 1, 4, 0]) + struct.pack('<HH', self.dyn_rx_cid, n))
+
+    def is_valid_disconnect(self, chan, data):
+        frames = data if isinstance(data, (tuple, list)) else (data,)
+        for f in frames:
+            # Disconnection Request naming the channel (DCID = victim endpoint, SCID = attacker endpoint)
+            if chan == 'lesig' and len(f) == 8 and f[0] == 0x06 and f[2:4] == b'\x04\x00' and struct.unpack('<HH', f[4:8]) == (self.dyn_cid, self.dyn_rx_cid):
+                return True
+        return False
+
+    def resync(self, chan, data):
+        """K-frames of one SDU form a stream: after a frame that announces an SDU and does not complete it
+        the next well-formed thing a peer can send is the rest of that SDU.  Send it (independent decode of
+        the SDU length), so that the reference request starts a new SDU.  False = the channel cannot be
+        probed (announced length above the victim's MTU, for which the specification demands that the
+        victim disconnects the channel; or the frame ends inside the length field)."""
+        if chan != 'dyn' or isinstance(data, (tuple, list)) or self.v_chan.in_sdu is None and len(data) >= 2 and len(data) - 2 >= (data[0] | (data[1] << 8)):
+            return True
+        if len(data) < 2:
+            return len(data) == 0
+        total = data[0] | (data[1] << 8)
+        missing = total - (len(data) - 2)
+        if missing <= 0:
+            return True
+        if total > self.v_mtu:
+            return False
+        self.grant(8)
+        rest = b'z' * missing
+        for off in range(0, missing, self.v_mps):
+            self.send('dyn', rest[off : off + self.v_mps])
+        self.psettle()
+        return True
+
+    def probe(self):
+        self.grant(8)
+        self.psettle()
+        self.n_probe = getattr(self, 'n_probe', 0) + 1
+        ping = b'ping-%d' % self.n_probe
+        self.send('dyn', struct.pack('<H', len(ping)) + ping)
+        return expect_in(self.psettle(), self.dyn_rx_cid, struct.pack('<H', len(ping)) + ping)
+
+    def diagnose(self, out, pout):
+        ch = self.v_chan
+        if ch.state.name != 'CONNECTED':
+            return f'le_coc.state_{ch.state.name}'
+        if ch.in_sdu is not None:
+            return 'le_coc.receiver_left_inside_an_sdu'
+        if ch.credits <= 0:
+            return 'le_coc.no_tx_credits'
+        return None
+
+
 # ---------------------------------------------------------------------------
 # classic beds
 # ---------------------------------------------------------------------------
@@ -549,35 +677,25 @@ AG_INDICATOR_VALUES = (0, 1, 0, 3, 0, 5)  # call, service, callsetup, signal, ro
 
 
 class RfcommBed(Bed):
-    """Victim = RFCOMM responder with an HFP AG on the DLC of server channel 1; attacker = initiator."""
+    """Victim = RFCOMM responder whose application echoes every received chunk on the DLC of server
+    channel 1 (`make_app`); attacker = session initiator.  Reference request = a data frame that must
+    come back."""
 
     name = 'rfcomm'
     classic = True
     CHANNEL = 1
 
+    def make_app(self, dlc):
+        self.v_dlc = dlc
+        self.ag = True
+        dlc.sink = lambda data: dlc.write(bytes(data))
+
     def bring_up(self):
-        from bumble import hfp, rfcomm
+        from bumble import rfcomm
 
         self.ag = None
-
-        def on_dlc(dlc):
-            st = hfp.AgIndicatorState
-            inds = [st.call(), st.service(), st.callsetup(), st.signal(), st.roam(), st.battchg()]
-            for s, v in zip(inds, AG_INDICATOR_VALUES):
-                s.current_status = v
-            cfg = hfp.AgConfiguration(
-                supported_ag_features=[hfp.AgFeature.ENHANCED_CALL_STATUS, hfp.AgFeature.THREE_WAY_CALLING, hfp.AgFeature.HF_INDICATORS,
-                                       hfp.AgFeature.CODEC_NEGOTIATION, hfp.AgFeature.REJECT_CALL],
-                supported_ag_indicators=inds,
-                supported_hf_indicators=[hfp.HfIndicator.ENHANCED_SAFETY, hfp.HfIndicator.BATTERY_LEVEL],
-                supported_ag_call_hold_operations=[hfp.CallHoldOperation.RELEASE_ALL_HELD_CALLS, hfp.CallHoldOperation.HOLD_ALL_ACTIVE_CALLS],
-                supported_audio_codecs=[hfp.AudioCodec.CVSD, hfp.AudioCodec.MSBC],
-            )
-            self.v_dlc = dlc
-            self.ag = hfp.AgProtocol(dlc, cfg)
-
         self.server = rfcomm.Server(self.vic)
-        ch = self.server.listen(on_dlc, channel=self.CHANNEL)
+        ch = self.server.listen(self.make_app, channel=self.CHANNEL)
         assert ch == self.CHANNEL
 
         async def go():
@@ -588,6 +706,7 @@ class RfcommBed(Bed):
         mux, dlc = self.world.run(go())
         self.world.settle()
         assert self.ag is not None
+        self.v_mux = self.v_dlc.multiplexer
         self.dlci = dlc.dlci
         self.new_dlci = self.dlci + 2
         self.dyn_cid = mux.l2cap_channel.destination_cid
@@ -615,6 +734,78 @@ class RfcommBed(Bed):
         return chan == 'dyn' and any(W.rfcomm_is_disconnect(f, self.dlci) for f in frames)
 
     def probe(self):
+        self.send('dyn', W.rfcomm_frame(W.UIH, self.dlci, 1, 1, b'', 32))
+        self.psettle()
+        self.rx_text.clear()
+        self.n_probe = getattr(self, 'n_probe', 0) + 1
+        ping = b'ping-%d' % self.n_probe
+        self.send_at(ping)
+        self.psettle()
+        text = bytes(self.rx_text)
+        self.rx_text.clear()
+        if not text:
+            return 'no_reply'
+        return None if text == ping else 'wrong_reply'
+
+    def diagnose(self, out, pout):
+        mux = self.v_mux
+        cur = mux.dlcs.get(self.dlci)
+        if cur is None:
+            return 'rfcomm.dlc_removed'
+        if cur is not self.v_dlc:
+            return 'rfcomm.dlc_object_replaced'
+        if self.v_dlc.state.name != 'CONNECTED':
+            return f'rfcomm.dlc_state_{self.v_dlc.state.name}'
+        if mux.state.name not in ('CONNECTED', 'OPENING'):
+            return f'rfcomm.mux_state_{mux.state.name}'
+        if self.v_dlc.tx_credits <= 0:
+            return 'rfcomm.no_tx_credits'
+        return None
+
+    def classify(self, chan, data):
+        if chan != 'dyn' or isinstance(data, (tuple, list)):
+            return None
+        d = W.rfcomm_decode(data)
+        if d is None:
+            return 'rfcomm.short'
+        ftype, dlci, pf, fcs_ok, len_ok = d
+        names = {W.SABM: 'SABM', W.UA: 'UA', W.DM: 'DM', W.DISC: 'DISC', W.UIH: 'UIH', 0x03: 'UI'}
+        where = 'dlci0' if dlci == 0 else ('live' if dlci == self.dlci else 'other')
+        c = f'rfcomm.{names.get(ftype, "type?")}.{where}' + ('' if fcs_ok else '.badfcs')
+        if ftype == W.UIH and dlci == 0 and fcs_ok:
+            pos = 3 if data[2] & 1 else 4
+            info = data[pos:-1]
+            if len(info) >= 1:
+                c += f'.mcc{info[0] >> 2:02x}{"cmd" if info[0] & 2 else "rsp"}'
+                if info[0] >> 2 == 0x20 and len(info) >= 3:
+                    c += '.for_live' if info[2] & 0x3F == self.dlci else '.for_other'
+        return c
+
+
+class HfpAgBed(RfcommBed):
+    """Victim = RFCOMM responder with an HFP AG on the DLC of server channel 1; reference request AT+CIND?."""
+
+    name = 'hfp_ag'
+
+    def make_app(self, dlc):
+        from bumble import hfp
+
+        st = hfp.AgIndicatorState
+        inds = [st.call(), st.service(), st.callsetup(), st.signal(), st.roam(), st.battchg()]
+        for s, v in zip(inds, AG_INDICATOR_VALUES):
+            s.current_status = v
+        cfg = hfp.AgConfiguration(
+            supported_ag_features=[hfp.AgFeature.ENHANCED_CALL_STATUS, hfp.AgFeature.THREE_WAY_CALLING, hfp.AgFeature.HF_INDICATORS,
+                                   hfp.AgFeature.CODEC_NEGOTIATION, hfp.AgFeature.REJECT_CALL],
+            supported_ag_indicators=inds,
+            supported_hf_indicators=[hfp.HfIndicator.ENHANCED_SAFETY, hfp.HfIndicator.BATTERY_LEVEL],
+            supported_ag_call_hold_operations=[hfp.CallHoldOperation.RELEASE_ALL_HELD_CALLS, hfp.CallHoldOperation.HOLD_ALL_ACTIVE_CALLS],
+            supported_audio_codecs=[hfp.AudioCodec.CVSD, hfp.AudioCodec.MSBC],
+        )
+        self.v_dlc = dlc
+        self.ag = hfp.AgProtocol(dlc, cfg)
+
+    def probe(self):
         # let the victim flush whatever it still had to say (credits only), then ask
         self.send('dyn', W.rfcomm_frame(W.UIH, self.dlci, 1, 1, b'', 32))
         self.psettle()
@@ -630,9 +821,22 @@ class RfcommBed(Bed):
             return None
         return 'wrong_reply'
 
+    def merges_with_next(self, chan, data):
+        # commands end with <CR>: anything after the last <CR> is the beginning of the next line
+        return chan == 'at' and not isinstance(data, (tuple, list)) and not bytes(data).endswith(b'\r')
 
-class HfpAgBed(RfcommBed):
-    name = 'hfp_ag'
+    def diagnose(self, out, pout):
+        d = super().diagnose(out, pout)
+        if d:
+            return d
+        if len(self.ag.read_buffer) > 0:
+            return 'ag.read_buffer_holds_unconsumed_bytes'
+        return None
+
+    def classify(self, chan, data):
+        if chan == 'at' and not isinstance(data, (tuple, list)):
+            return 'at.no_terminator' if b'\r' not in data else ('at.one_line' if data.count(b'\r') == 1 and data.endswith(b'\r') else 'at.odd_framing')
+        return super().classify(chan, data)
 
 
 class HfpHfBed(RfcommBed):
@@ -643,33 +847,41 @@ class HfpHfBed(RfcommBed):
     CIND_TEST = b'+CIND: ("call",(0,1)),("callsetup",(0-3)),("service",(0,1))'
     CIND_READ = b'+CIND: 0,0,1'
 
+    def make_app(self, dlc):
+        self.v_dlc = dlc
+        self.ag = True  # the HF itself is created after the attacker went raw (after_detach)
+
     def bring_up(self):
-        from bumble import rfcomm
-
-        self.v_dlc = None
         self.hf = None
-
-        def on_dlc(dlc):
-            self.v_dlc = dlc
-
-        self.server = rfcomm.Server(self.vic)
-        self.server.listen(on_dlc, channel=self.CHANNEL)
-
-        async def go():
-            mux = await rfcomm.Client(self.a_conn).start()
-            dlc = await mux.open_dlc(self.CHANNEL)
-            return mux, dlc
-
-        mux, dlc = self.world.run(go())
-        self.world.settle()
-        assert self.v_dlc is not None
-        self.dlci = dlc.dlci
-        self.new_dlci = self.dlci + 2
-        self.dyn_cid = mux.l2cap_channel.destination_cid
-        self.dyn_rx_cid = mux.l2cap_channel.source_cid
-        self.rx_text = bytearray()
+        super().bring_up()
         self.cmds = []
         self.respond = True
+
+    def diagnose(self, out, pout):
+        d = RfcommBed.diagnose(self, out, pout)
+        if d:
+            return d
+        if self.run_task.done():
+            last = [t for src in (pout, out) if src is not None for t, s in src.raised if t not in ('CancelledError', 'TimeoutError')]
+            return 'hf.run_loop_terminated' + (f':{last[-1]}' if last else '')
+        if len(self.hf.read_buffer) > 0:
+            return 'hf.read_buffer_holds_unconsumed_bytes'
+        if self.hf.command_lock.locked():
+            return 'hf.command_lock_held'
+        return None
+
+    def merges_with_next(self, chan, data):
+        import re
+
+        # results are <CR><LF>text<CR><LF> units: anything else leaves the reader inside a unit
+        return chan == 'at' and not isinstance(data, (tuple, list)) and not re.fullmatch(rb'(\r\n[^\r\n]*\r\n)*', bytes(data))
+
+    def classify(self, chan, data):
+        if chan == 'at' and not isinstance(data, (tuple, list)):
+            import re
+
+            return 'at.well_framed' if re.fullmatch(rb'(\r\n[^\r\n]*\r\n)*', data) else 'at.odd_framing'
+        return RfcommBed.classify(self, chan, data)
 
     def after_detach(self):
         from bumble import hfp
@@ -789,6 +1001,13 @@ class AvctpBed(Bed):
         self.world.settle()
         assert self.avrcp.avctp_protocol is not None, 'AVRCP did not attach to the AVCTP channel'
 
+    def diagnose(self, out, pout):
+        if self.avrcp.avctp_protocol is None:
+            return 'avrcp.avctp_protocol_detached'
+        if getattr(self.avrcp, 'receive_command_state', None) is not None:
+            return 'avrcp.receive_command_state_left_set'
+        return None
+
     def probe(self):
         lab = 1 + (self.next_tid() % 14)  # never label 0 / the seeds' label 1 twice in a row
         # AVRCP GetCapabilities(COMPANY_ID), STATUS command to the PANEL subunit
@@ -851,7 +1070,7 @@ class HciClBed(ClSigBed):
 
 BEDS = {
     b.name: b
-    for b in (AttServerBed, AttClientBed, AttClientPendingBed, SmpBed, LeSigBed, ClSigBed, SdpBed, RfcommBed, HfpAgBed, HfpHfBed, AvdtpBed, AvctpBed,
+    for b in (AttServerBed, AttClientBed, AttClientPendingBed, SmpBed, LeSigBed, LeCocBed, ClSigBed, SdpBed, RfcommBed, HfpAgBed, HfpHfBed, AvdtpBed, AvctpBed,
               HciLeBed, HciClBed)
 }
 
